@@ -17,7 +17,7 @@ RULE = (
     'pair the set-theoretic rule of the statement (reference predicate, recursive for nested '
     'Concurrent children) is compared with isinstance, issubclass and a real try/except; '
     'type(exc) must only depend on the set of child types, equal specialisations must be the '
-    'identical class, flattened() must keep the leaves and their order. non-trivial = pair with '
+    'identical class, flattened() must keep the leaves and their order, also when the same failure object or nested group occurs more than once in the tree. non-trivial = pair with '
     '>= 2 distinct child types or a nested child; distinct = (raised types, handler)'
 )
 LEVEL_TEXT = (
@@ -214,6 +214,25 @@ def run_case(case):
         violations.append({'mechanism': 'c17:flattened',
                            'msg': 'flattened() of %s does not carry the original leaf objects '
                                   'in order' % raised_text})
+    # ---- the same failure objects may occur more than once in one tree (a failure that is
+    # re-raised and collected again): every occurrence is a leaf of the flattened result ----
+    shared_leaf = Other('shared')
+    inner = Concurrent(exc, shared_leaf)
+    for tree, want_objects in (
+            (Concurrent(exc, exc), real_leaves * 2),
+            (Concurrent(exc, inner, shared_leaf),
+             real_leaves + real_leaves + [shared_leaf, shared_leaf]),
+            (Concurrent(inner, Concurrent(inner, Concurrent(exc))),
+             (real_leaves + [shared_leaf]) * 2 + real_leaves),
+            (Concurrent(shared_leaf, Concurrent(shared_leaf)), [shared_leaf, shared_leaf])):
+        stats['flatten_checks'] += 1
+        got = tree.flattened().children
+        if [id(c) for c in got] != [id(c) for c in want_objects]:
+            violations.append({'mechanism': 'c17:flattened',
+                               'msg': 'flattened() of a tree in which %s (or a group holding it) '
+                                      'occurs more than once has leaves %s, expected %s' % (
+                                          raised_text, [type(c).__name__ for c in got],
+                                          [type(c).__name__ for c in want_objects])})
     # ---- handlers ----
     for handler in handler_space(tier):
         kind, listed, inclusive = handler
